@@ -319,6 +319,35 @@ Section Proofs.
     destruct (junction_phase_ext (mo_name m) gr am' (incoming_phase qa (mo_name m) gr am' (fk_phase qa m am' (fold_left (add_key qa false) (mo_pk m) s0)))) as (Hi6 & _).
     apply Hi6, Hi5, H1.
   Qed.
+  (* the foreign key of the model's own many_to_one relationship to another model of the query *)
+  Lemma foreign_key_projected m gr dims filters order_by am mfc jk r fk :
+    In r (mo_rels m) -> cr_type r = "many_to_one" -> In fk (cr_fks r) -> 1 < length am -> In (cr_name r) am ->
+    In fk (st_added (cte_keys_dims qa trunc parse m gr dims filters order_by am mfc jk)).
+  Proof.
+    intros Hr Ht Hfk Hlen Hin. unfold cte_keys_dims.
+    assert (Ham : match am with [] => [mo_name m] | _ => am end = am) by (destruct am; [simpl in Hlen; inversion Hlen | reflexivity]). rewrite Ham.
+    set (s0 := ([], [], needed_dims parse (mo_name m) dims filters order_by mfc) : st).
+    destruct (gran_phase_ext m dims (dim_phase qa trunc m (key_phases qa m gr am jk s0))) as (Hi1 & _). apply Hi1.
+    destruct (dim_phase_ext m (key_phases qa m gr am jk s0)) as (Hi2 & _). apply Hi2.
+    unfold key_phases.
+    match goal with |- In fk (st_added (fold_left ?f ?l ?s9)) => destruct (fold_ext f l (add_key_ext true) s9) as (Hi3 & _); apply Hi3 end.
+    assert (H1 : In fk (st_added (fk_phase qa m am (fold_left (add_key qa false) (mo_pk m) s0)))).
+    { unfold fk_phase.
+      apply (fold_reaches _ (mo_rels m) r fk).
+      - intros s1 r1. destruct (String.eqb (cr_type r1) "many_to_one"); [|apply ext_refl].
+        apply fold_ext. intros s2 f2. match goal with |- context [if ?c then _ else _] => destruct c end; [apply add_key_ext | apply ext_refl].
+      - exact Hr.
+      - intros s1. rewrite Ht, String.eqb_refl.
+        apply (fold_reaches _ (cr_fks r) fk fk).
+        + intros s2 f2. match goal with |- context [if ?c then _ else _] => destruct c end; [apply add_key_ext | apply ext_refl].
+        + exact Hfk.
+        + intros s2. apply Nat.ltb_lt in Hlen. rewrite Hlen. apply mem_In in Hin. rewrite Hin. cbn [andb orb].
+          destruct (mem fk (st_added s2)) eqn:E; cbn [negb]; [apply mem_In, E | apply add_key_in]. }
+    destruct (Nat.ltb 1 (length am)); [|exact H1].
+    destruct (incoming_phase_ext (mo_name m) gr am (fk_phase qa m am (fold_left (add_key qa false) (mo_pk m) s0))) as (Hi5 & _).
+    destruct (junction_phase_ext (mo_name m) gr am (incoming_phase qa (mo_name m) gr am (fk_phase qa m am (fold_left (add_key qa false) (mo_pk m) s0)))) as (Hi6 & _).
+    apply Hi6, Hi5, H1.
+  Qed.
   Lemma join_key_projected m gr dims filters order_by am mfc l k :
     In k l -> In k (st_added (cte_keys_dims qa trunc parse m gr dims filters order_by am mfc (Some l))).
   Proof.
